@@ -3,6 +3,7 @@ import Flatland.C18
 import Flatland.C18Multi
 import Flatland.C18Flat
 import Flatland.C18Joined
+import Flatland.C18Explode
 import Flatland.Run.C04
 open Lean Flatland.J
 namespace Flatland.Run.C18
@@ -45,18 +46,42 @@ def dateObs (E : Env) (s : DateState) (ret : Option Bool) : Json :=
   | .error e => obj [("exc", Json.null), ("ret", retJson ret), ("u", Json.str (raiseName e)),
                      ("value", Json.str (raiseName e)), ("members", membersJson [s.y, s.m, s.d])]
 
+/-- `"raises": {"none": null|"type"|"other", "ints": [..], "err": "type"|"other"}` — when the member's
+    `valid_value` raises (on the adapted value); absent / null = never -/
+def parseMErr (j : Json) : Except String (Option Explode.MErr) := do
+  if isNull j then return none
+  match j with
+  | .str "type" => return some .typeError
+  | .str "other" => return some .other
+  | _ => throw "bad raise category"
+
+def parseRule (m : Json) : Except String Explode.RaiseRule := do
+  match m.getObjVal? "raises" with
+  | .error _ => return {}
+  | .ok r =>
+    if isNull r then return {} else
+    let ints ← (← afld r "ints").mapM fun x => do
+      match (← parseNative x) with
+      | .int n => pure n
+      | _ => throw "bad raise int"
+    let err ← parseMErr (← fld r "err")
+    return { onNone := ← parseMErr (← fld r "none"), onInts := ints, err := err.getD .typeError }
+
 def runDate (j : Json) : Except String Json := do
   let E ← envOf j
   let ops ← (← afld j "ops").mapM parseDateOp
-  let c : DateCfg ← match j.getObjVal? "members" with
-    | .ok mj => if isNull mj then pure ({} : DateCfg) else do
+  let c : Explode.DateCfgX ← match j.getObjVal? "members" with
+    | .ok mj => if isNull mj then pure ({} : Explode.DateCfgX) else do
         match (← arr mj) with
         | [a, b, d] => pure { ky := ← parseKind (← fld a "kind"), km := ← parseKind (← fld b "kind"), kd := ← parseKind (← fld d "kind"),
-                              ny := ← cfld a "name", nm := ← cfld b "name", nd := ← cfld d "name" }
+                              ny := ← cfld a "name", nm := ← cfld b "name", nd := ← cfld d "name",
+                              ry := ← parseRule a, rm := ← parseRule b, rd := ← parseRule d }
         | _ => throw "bad members"
-    | .error _ => pure ({} : DateCfg)
+    | .error _ => pure ({} : Explode.DateCfgX)
   let start : DateState := ⟨Flatland.C04.blankState, Flatland.C04.blankState, Flatland.C04.blankState⟩
-  let steps := runOps (fun (s : DateState) o => match s.step E c o with
+  -- the model with the member loops, the fallback loop and `Compound.set`'s `except Exception` written out
+  -- (`stepX`; = `DateState.step` when no member raises: `stepX_noRaise_eq_step`)
+  let steps := runOps (fun (s : DateState) o => match s.stepX E c o with
       | .ok (s', ret) => .ok (s', dateObs E s' ret)
       | .error e => .error (craiseName e)) excObj start ops []
   return obj [("steps", Json.arr steps.toArray)]
